@@ -10,11 +10,13 @@ import (
 	"fmt"
 	"hash/fnv"
 	"net"
+	"os"
 	"sort"
 	"strconv"
 	"strings"
 	"sync"
 	"testing"
+	"time"
 
 	"github.com/EdgeCast/vflow/ipfix"
 	"pgregory.net/rapid"
@@ -81,6 +83,10 @@ type c04Case struct {
 	Proto string    `json:"proto"`
 	Slots []c04Slot `json:"slots"`
 	Ops   []c04Op   `json:"ops"`
+	// Pauses: operation index -> milliseconds that pass before it (aged histories: an exporter that is silent for a
+	// while, a collector whose periodic tasks have fired in between); what the latest definition of an id is does not
+	// depend on how long ago it was announced
+	Pauses map[int]int `json:"pauses,omitempty"`
 }
 
 const c04Rule = "case = protocol (ipfix | nf9) + 2..6 (exporter address, template id) slots (IPv4 4-byte, IPv4-mapped, IPv6; ids shared across exporters; adversarial pairs that collide on the cache's " +
@@ -616,6 +622,11 @@ func runC04x(c *c04Case) (v verdict, sig string, err error, cache *flowCache, mo
 	}
 	for i, op := range c.Ops {
 		cur = &c.Ops[i]
+		if ms := c.Pauses[i]; ms > 0 && ms <= 5000 {
+			time.Sleep(time.Duration(ms) * time.Millisecond)
+			v.label(true, "time-passes-between-operations")
+			v.label(ms >= 1000, "pause>=1s")
+		}
 		if op.Slot < 0 || op.Slot >= len(c.Slots) {
 			return v, "", fmt.Errorf("bad case: slot index"), cache, model
 		}
@@ -1066,6 +1077,50 @@ func TestC04(t *testing.T) {
 		v, sig, err := runC04(&c)
 		col.report(t, mustJSON(c), v, sig, err)
 	})
+}
+
+// TestC04Aged: histories in which time passes (20 ms .. 3.1 s, at most 4 s per history) before some operations.
+func TestC04Aged(t *testing.T) {
+	installEnterprise()
+	envs := map[string]*wire.GenEnv{"ipfix": wire.NewGenEnv("ipfix"), "nf9": wire.NewGenEnv("nf9")}
+	col := getCollector("C04", c04Rule)
+	if !strings.Contains(col.Rule, "aged stage") {
+		col.Rule += " | aged stage (a few histories per shard): the same histories with 1..3 pauses of 20 ms .. 3.1 s (at most 4 s in all) before drawn operations — the model does not know time: the latest announced definition counts however long ago it was announced"
+	}
+	n := 4
+	if os.Getenv("VERIF_TIER") == "thorough" {
+		n = 40
+	}
+	if s := os.Getenv("VERIF_AGED_CASES"); s != "" {
+		if k, err := strconv.Atoi(s); err == nil && k >= 0 {
+			n = k
+		}
+	}
+	seed := e2eSeed()
+	gen := rapid.Custom(func(t *rapid.T) c04Case {
+		proto := rapid.SampledFrom([]string{"ipfix", "nf9"}).Draw(t, "proto")
+		c := genC04(t, proto, envs[proto], "empty", "withdraw")
+		c.Pauses = map[int]int{}
+		total := 0
+		for k, np := 0, rapid.IntRange(1, 3).Draw(t, "npauses"); k < np; k++ {
+			ms := rapid.SampledFrom([]int{20, 60, 150, 400, 1100, 1600, 2100, 3100}).Draw(t, "pausems")
+			if total+ms > 4000 {
+				continue
+			}
+			total += ms
+			c.Pauses[rapid.IntRange(1, len(c.Ops)-1).Draw(t, "pauseat")] += ms
+		}
+		return c
+	})
+	for i := 0; i < n; i++ {
+		c := gen.Example(seed*100 + 70 + i)
+		v, sig, err := runC04(&c)
+		col.report(t, mustJSON(c), v, sig, err)
+		col.addExtra("aged_histories", 1)
+		if err != nil {
+			return
+		}
+	}
 }
 
 func init() {
